@@ -47,6 +47,7 @@ fn warm_up() {
             model: "a -> b\nb -| a\n$a: !b\n$b: a\n".to_string(),
             k: 1,
             context: Default::default(),
+            restrict: None,
         };
         let env = w.build()?;
         let f = ast::F::hyb("!", "x", None, ast::F::un("AX", ast::F::var("x")));
@@ -119,15 +120,17 @@ fn cmd_run(args: &[String]) -> i32 {
     let run_cap_ms = arg_u64(args, "--run-cap-ms", 60_000);
     let current: std::sync::Arc<std::sync::atomic::AtomicU64> = std::sync::Arc::new(std::sync::atomic::AtomicU64::new(u64::MAX));
     let current_idx: std::sync::Arc<std::sync::atomic::AtomicU64> = std::sync::Arc::new(std::sync::atomic::AtomicU64::new(0));
+    let cap_ms: std::sync::Arc<std::sync::atomic::AtomicU64> = std::sync::Arc::new(std::sync::atomic::AtomicU64::new(run_cap_ms));
     {
         let current = current.clone();
         let current_idx = current_idx.clone();
+        let cap_ms = cap_ms.clone();
         let side = format!("{out_path}.abandoned");
         std::thread::spawn(move || {
             loop {
                 std::thread::sleep(Duration::from_millis(250));
                 let began = current.load(std::sync::atomic::Ordering::Relaxed);
-                if began != u64::MAX && (start.elapsed().as_millis() as u64).saturating_sub(began) > run_cap_ms {
+                if began != u64::MAX && (start.elapsed().as_millis() as u64).saturating_sub(began) > cap_ms.load(std::sync::atomic::Ordering::Relaxed) {
                     let _ = std::fs::write(&side, format!("{}\n", current_idx.load(std::sync::atomic::Ordering::Relaxed)));
                     unsafe { libc::_exit(0) };
                 }
@@ -158,7 +161,29 @@ fn cmd_run(args: &[String]) -> i32 {
             line["sample"] = case.to_json();
         }
         if let Some(v) = &rep.violation {
-            // minimise, then write the replay file
+            // 1. record the violation as found (explicit case, replayable) before anything else
+            let _ = std::fs::create_dir_all(&replay_dir);
+            let path = format!("{replay_dir}/{prop}-{seed}-{idx}.json");
+            let write_replay = |c: &Case, r: &scen::Report, steps: usize| {
+                let fv = r.violation.clone().unwrap();
+                let file = json!({
+                    "property": prop, "seed": seed, "index": idx, "hash_seed": hash_seed, "tier": tier,
+                    "case": c.to_json(),
+                    "expect": {"oracle": fv.oracle, "detail": fv.detail, "event_hash": format!("{:016x}", r.event_hash())},
+                    "minimise_steps": steps,
+                    "original_case": case.to_json(),
+                });
+                std::fs::write(&path, serde_json::to_string_pretty(&file).unwrap()).expect("write replay");
+                json!({"oracle": fv.oracle, "detail": fv.detail, "replay": path, "case": c.to_json()})
+            };
+            let mut l1 = line.clone();
+            l1["violation"] = write_replay(&case, &rep, 0);
+            let _ = writeln!(out, "{l1}");
+            let _ = out.flush();
+            // 2. minimise (bounded: the watchdog ends the worker if this takes too long; the record
+            //    written above then stands)
+            cap_ms.store(min_budget.as_millis() as u64 + 2 * run_cap_ms, std::sync::atomic::Ordering::Relaxed);
+            current.store(start.elapsed().as_millis() as u64, std::sync::atomic::Ordering::Relaxed);
             let start_case = match &rep.pinned {
                 Some(p) => {
                     let mut j = case.to_json();
@@ -172,30 +197,19 @@ fn cmd_run(args: &[String]) -> i32 {
             };
             let (small, steps) = case::minimise(&start_case, &v.oracle, &sandbox, min_budget);
             let rep2 = run_case(&small, hash_seed, &sandbox).unwrap_or_default();
-            let (final_case, final_rep) = if rep2.violation.as_ref().map(|x| &x.oracle) == Some(&v.oracle) {
-                (small, rep2)
-            } else {
-                (case.clone(), rep.clone())
-            };
-            let fv = final_rep.violation.clone().unwrap();
-            if std::env::var("VERIF_DEBUG_EVENTS").is_ok() {
-                for e in &final_rep.events {
-                    eprintln!("final event: {e}");
+            current.store(u64::MAX, std::sync::atomic::Ordering::Relaxed);
+            cap_ms.store(run_cap_ms, std::sync::atomic::Ordering::Relaxed);
+            if rep2.violation.as_ref().map(|x| &x.oracle) == Some(&v.oracle) && small != case {
+                if std::env::var("VERIF_DEBUG_EVENTS").is_ok() {
+                    for e in &rep2.events {
+                        eprintln!("final event: {e}");
+                    }
                 }
+                // 3. the minimised record replaces the first one (same run index: the later line wins)
+                line["violation"] = write_replay(&small, &rep2, steps);
+                let _ = writeln!(out, "{line}");
+                let _ = out.flush();
             }
-            let _ = std::fs::create_dir_all(&replay_dir);
-            let path = format!("{replay_dir}/{prop}-{seed}-{idx}.json");
-            let file = json!({
-                "property": prop, "seed": seed, "index": idx, "hash_seed": hash_seed, "tier": tier,
-                "case": final_case.to_json(),
-                "expect": {"oracle": fv.oracle, "detail": fv.detail, "event_hash": format!("{:016x}", final_rep.event_hash())},
-                "minimise_steps": steps,
-                "original_case": case.to_json(),
-            });
-            std::fs::write(&path, serde_json::to_string_pretty(&file).unwrap()).expect("write replay");
-            line["violation"] = json!({"oracle": fv.oracle, "detail": fv.detail, "replay": path, "case": final_case.to_json()});
-            let _ = writeln!(out, "{line}");
-            let _ = out.flush();
             if !keep_going {
                 return 0;
             }
